@@ -391,7 +391,7 @@ def check_c11(tier, seed):
                                wraps=MC_WRAPS if mc else WRAP_PIN)
         args = ["--sub", sub, "--tier", "quick", "--seed", str(seed), "--label", "msan", "--maxbe", str(msan.maxbe), "--paint", "0"]
         m = Merged()
-        for res in run_sharded(binary, args, st, "msan-%s-%s" % (sub, src[2:-2]), nshards=NCPU, env=env, timeout=3000, only=None if sub == "c16" else part):
+        for res in run_sharded(binary, args, st, "msan-%s-%s" % (sub, src[2:-2]), nshards=NCPU, env=env, timeout=3000, only=None if sub in ("c16", "c06") else part):
             m.add(res, None)
         return ("msan", src, sub, None, 0, m, make_replayer(binary, args, env=env))
     for src, sub, mc in subs:
@@ -404,7 +404,7 @@ def check_c11(tier, seed):
         binary = build_harness(st, lib, "paint-%s%s-%d" % (sub, src[2:-2], paint), sources, wraps=MC_WRAPS if mc else WRAP_PIN)
         args = ["--sub", sub, "--tier", "quick", "--seed", str(seed), "--label", lib.name, "--maxbe", str(lib.maxbe), "--paint", str(paint)]
         m = Merged()
-        for res in run_sharded(binary, args, st, "paint-%s-%s-%s-%d" % (lib.name, sub, src[2:-2], paint), nshards=NCPU, timeout=3000, only=None if sub == "c16" else part):
+        for res in run_sharded(binary, args, st, "paint-%s-%s-%s-%d" % (lib.name, sub, src[2:-2], paint), nshards=NCPU, timeout=3000, only=None if sub in ("c16", "c06") else part):
             m.add(res, None)
         return ("paint", src, sub, lib, paint, m, make_replayer(binary, args))
     for lib in (shipped, o0):
@@ -700,9 +700,14 @@ def check_c20(tier, seed):
         inp = infile(n)
         out = os.path.join(work, "out-%d.bin" % idx); exp = os.path.join(work, "exp-%d.bin" % idx); back = os.path.join(work, "back-%d.bin" % idx)
         # option order varies with the case index: -b first, -b last, -d first
-        opts = [["-b", str(bs * 8)], ["-k", key]]
+        # the tool sees the hexadecimal arguments in upper case, lower case or mixed case depending on the case index;
+        # the oracle always gets lower case
+        def spell(hx, salt):
+            k = (idx + salt) % 4
+            return hx if k == 0 else (hx.upper() if k == 1 else "".join(ch.upper() if (i + k) % 2 else ch for i, ch in enumerate(hx)))
+        opts = [["-b", str(bs * 8)], ["-k", spell(key, 0)]]
         if tw is not None:
-            opts.append(["-c" if mode == "ctr" else "-t", tw])
+            opts.append(["-c" if mode == "ctr" else "-t", spell(tw, 1)])
         if d == "dec":
             opts.append(["-d"])
         if idx % 3 == 1:
@@ -728,9 +733,9 @@ def check_c20(tier, seed):
             k = next((i for i in range(min(len(a), len(b))) if a[i] != b[i]), min(len(a), len(b)))
             errs.append(("C20/%s/output-differs-from-library" % tool[mode], "%s: tool wrote %d bytes, library gives %d bytes, first difference at byte %d" % (desc, len(a), len(b), k)))
         # round trip
-        cmd2 = [os.path.join(ex, tool[mode]), "-b", str(bs * 8), "-k", key]
+        cmd2 = [os.path.join(ex, tool[mode]), "-b", str(bs * 8), "-k", spell(key, 2)]
         if tw is not None:
-            cmd2 += ["-c" if mode == "ctr" else "-t", tw]
+            cmd2 += ["-c" if mode == "ctr" else "-t", spell(tw, 3)]
         if mode != "ctr" and d == "enc":
             cmd2 += ["-d"]
         if mode == "ctr" or d == "enc":
